@@ -163,9 +163,14 @@ def run_unit(unit, only=None):
     n_seq = [0]
 
     def dfs(model, ref, seq):
-        if len(seq) >= depth:
+        if len(seq) >= depth + 1:
             return False
         for oi, op in enumerate(allops):
+            if len(seq) >= depth:
+                # extra level: only histories that already updated, then cleared, and now end with an update
+                names = [o[0] for o in seq]
+                if op[0] != "update" or "clear" not in names or "update" not in names[: names.index("clear")] or only is not None and False:
+                    continue
             if len(seq) == 0 and oi != first:
                 continue
             if only is not None and (len(seq) >= len(only) or list(op) != list(only[len(seq)])):
